@@ -23,6 +23,7 @@ import (
 	"net/http"
 	"net/http/httptest"
 	"os"
+	"reflect"
 	"strconv"
 	"strings"
 	"sync"
@@ -74,7 +75,9 @@ func c13PStruct(text []byte) string {
 			if err != nil {
 				e = "1"
 			}
-			if c == nil {
+			// nil interface, or (as pion/ice does on some error paths) a nil pointer inside the interface:
+			// a method call panics on either
+			if c == nil || (reflect.ValueOf(c).Kind() == reflect.Ptr && reflect.ValueOf(c).IsNil()) {
 				toks = append(toks, "k"+e+".nil")
 				continue
 			}
@@ -213,6 +216,25 @@ func TestVerifC13Driver(t *testing.T) {
 	defer srv.srv.Close()
 	wire.Loop(func(a []string) string {
 		switch a[0] {
+		case "peerparse": // the coarse view of zz_verif_sessdesc_test.go, served from this driver too
+			text, err := wire.Payload(a[1])
+			if err != nil {
+				return "!badcase"
+			}
+			return verifStructure(text) + " " + verifCaps(string(text))
+		case "peer":
+			text, err := wire.Payload(a[3])
+			if err != nil {
+				return "!badcase"
+			}
+			if st := verifStructure(text) + " " + verifCaps(string(text)); st != a[1]+" "+a[2] {
+				return "!structure-mismatch " + st
+			}
+			ip := remoteIPFromSDP(string(text))
+			if ip == nil {
+				return "nil"
+			}
+			return "x" + hex.EncodeToString(ip)
 		case "peergparse":
 			text, err := wire.Payload(a[1])
 			if err != nil {
